@@ -201,9 +201,21 @@ func (m *machine) splitFirst(s *Term, sep string) (*Term, *Term) {
 		m.assume(mkStrEq(g3, mkConcat(mkStr(sep), y)))
 		return g2, y
 	}
-	if ps := concatParts(s); len(ps) > 0 && ps[0].Op == "cs" {
-		if idx := strings.Index(ps[0].S, sep); idx >= 0 {
-			return mkStr(ps[0].S[:idx]), mkConcat(append([]*Term{mkStr(ps[0].S[idx+len(sep):])}, ps[1:]...)...)
+	// multi-character separator: first constant part containing it, provided no
+	// earlier part can contain its first byte (no earlier or straddling match)
+	{
+		ps := concatParts(s)
+		for i, p := range ps {
+			if p.Op == "cs" {
+				if idx := strings.Index(p.S, sep); idx >= 0 {
+					left := mkConcat(append(append([]*Term{}, ps[:i]...), mkStr(p.S[:idx]))...)
+					right := mkConcat(append([]*Term{mkStr(p.S[idx+len(sep):])}, ps[i+1:]...)...)
+					return left, right
+				}
+			}
+			if !m.cannotContain(p, sep[0]) {
+				break
+			}
 		}
 	}
 	x := m.freshStr("sp_l")
@@ -398,64 +410,102 @@ func (m *machine) stdError(pkg, typ, msg string) iface {
 	return iface{t: t, v: &opaque{kind: "error", data: msg}}
 }
 
-// reLeBound: digit strings (leading zeros allowed) whose value is <= bound.
-func reLeBound(bound string) *Term {
-	n := len(bound)
-	var alts []*Term
-	// fewer significant digits
-	if n > 1 {
-		lp := rawApp("(_ re.loop 1 "+strconv.Itoa(n-1)+")", SRe, reDigit)
-		lp.key = "((_ re.loop 1 " + strconv.Itoa(n-1) + ") " + reDigit.key + ")"
-		alts = append(alts, lp)
+// nonNegative: the integer term is known (range or path condition) to be >= 0
+// and within int64.
+func (m *machine) nonNegative(x *Term) bool {
+	if x.rng && x.lo >= 0 {
+		return true
 	}
-	for i := 0; i < n; i++ {
-		if bound[i] == '0' {
-			continue
+	if x.Op == "-" && len(x.Args) == 1 {
+		// -(y) with y < 0 on the path
+		if m.known[mkCmp("<", x.Args[0], mkInt(0)).key] {
+			return true
 		}
-		var seq []*Term
-		if i > 0 {
-			seq = append(seq, reLit(bound[:i]))
-		}
-		seq = append(seq, reRange('0', bound[i]-1))
-		for j := i + 1; j < n; j++ {
-			seq = append(seq, reDigit)
-		}
-		alts = append(alts, reConcat(seq...))
 	}
-	alts = append(alts, reLit(bound))
-	return reConcat(reStar(reLit("0")), reUnion(alts...))
+	return m.known[mkNot(mkCmp("<", x, mkInt(0))).key] || m.known[mkCmp(">=", x, mkInt(0)).key]
 }
 
-// reGtBound: digit strings (leading zeros allowed) whose value is > bound.
-func reGtBound(bound string) *Term {
+// cannotContain: the string term certainly does not contain byte c.
+func (m *machine) cannotContain(t *Term, c byte) bool {
+	switch t.Op {
+	case "cs":
+		return strings.IndexByte(t.S, c) < 0
+	case "str.from_int":
+		return c < '0' || c > '9'
+	case "str.++":
+		for _, p := range t.Args {
+			if !m.cannotContain(p, c) {
+				return false
+			}
+		}
+		return true
+	}
+	return m.known[mkNot(mkContains(t, mkStr(string([]byte{c})))).key]
+}
+
+// re19 builds a regex for the 19-digit strings that are <= bound (le) or > bound.
+func re19(bound string, le bool) *Term {
 	n := len(bound)
-	nz := reRange('1', '9')
-	lp := rawApp("re.loop", SRe, reDigit)
-	lp.key = "((_ re.loop " + strconv.Itoa(n) + " " + strconv.Itoa(n+40) + ") " + reDigit.key + ")"
-	alts := []*Term{reConcat(nz, lp, reStar(reDigit))}
+	var alts []*Term
 	for i := 0; i < n; i++ {
-		if bound[i] == '9' {
-			continue
+		var cls *Term
+		if le {
+			if bound[i] == '0' {
+				continue
+			}
+			cls = reRange('0', bound[i]-1)
+		} else {
+			if bound[i] == '9' {
+				continue
+			}
+			cls = reRange(bound[i]+1, '9')
 		}
 		var seq []*Term
 		if i > 0 {
 			seq = append(seq, reLit(bound[:i]))
 		}
-		seq = append(seq, reRange(bound[i]+1, '9'))
+		seq = append(seq, cls)
 		for j := i + 1; j < n; j++ {
 			seq = append(seq, reDigit)
 		}
 		alts = append(alts, reConcat(seq...))
 	}
-	return reConcat(reStar(reLit("0")), reUnion(alts...))
+	if le {
+		alts = append(alts, reLit(bound))
+	}
+	return reUnion(alts...)
 }
 
 var (
-	rePosInt64   = reLeBound("9223372036854775807")
-	reNegInt64   = reLeBound("9223372036854775808")
-	rePosInt64Gt = reGtBound("9223372036854775807")
-	reNegInt64Gt = reGtBound("9223372036854775808")
+	rePosLe = re19("9223372036854775807", true)
+	rePosGt = re19("9223372036854775807", false)
+	reNegLe = re19("9223372036854775808", true)
+	reNegGt = re19("9223372036854775808", false)
+	reZeros = reStar(reLit("0"))
 )
+
+// inInt64Range decides whether the digit string d (known to match [0-9]+)
+// denotes a magnitude within int64 (negative side when neg).
+func (m *machine) inInt64Range(d *Term, neg bool) bool {
+	if d.Op == "str.from_int" {
+		return true // canonical numeral of an int64 quantity
+	}
+	z := m.freshStr("zeros")
+	e := m.freshStr("sig")
+	m.assume(mkStrEq(d, mkConcat(z, e)))
+	m.assume(mkInRe(z, reZeros))
+	m.assume(mkNot(mkPrefixOf(mkStr("0"), e)))
+	if m.branch(mkCmp("<=", mkLen(e), mkInt(18))) {
+		return true
+	}
+	if m.branch(mkCmp(">=", mkLen(e), mkInt(20))) {
+		return false
+	}
+	if neg {
+		return m.branchNeg(mkInRe(e, reNegLe), mkInRe(e, reNegGt))
+	}
+	return m.branchNeg(mkInRe(e, rePosLe), mkInRe(e, rePosGt))
+}
 
 func iAtoi(m *machine, fr *frame, args []value) value {
 	s, sc := strArg(args[0])
@@ -475,6 +525,17 @@ func iAtoi(m *machine, fr *frame, args []value) value {
 }
 
 func (m *machine) atoi(s *Term) value {
+	// canonical numerals produced by Itoa of an int64 quantity
+	if s.Op == "str.from_int" && m.nonNegative(s.Args[0]) {
+		return tuple{fromTerm(s.Args[0]), iface{}}
+	}
+	if ps := concatParts(s); len(ps) == 2 && ps[0].Op == "cs" && ps[0].S == "-" && ps[1].Op == "str.from_int" && m.nonNegative(ps[1].Args[0]) {
+		x := ps[1].Args[0]
+		if x.Op == "-" && len(x.Args) == 1 {
+			return tuple{fromTerm(x.Args[0]), iface{}}
+		}
+		return tuple{fromTerm(mkNeg(x)), iface{}}
+	}
 	errV := func() iface {
 		return m.stdError("strconv", "NumError", "strconv.Atoi: parsing <symbolic>: invalid syntax or out of range")
 	}
@@ -484,7 +545,7 @@ func (m *machine) atoi(s *Term) value {
 	var val *Term
 	if m.branch(mkPrefixOf(mkStr("-"), s)) {
 		d, _ := m.cutPrefix(s, mkStr("-"))
-		if !m.branchNeg(mkInRe(d, reNegInt64), mkInRe(d, reNegInt64Gt)) {
+		if !m.inInt64Range(d, true) {
 			return tuple{int64(0), errV()}
 		}
 		val = mkNeg(mkStrToInt(d))
@@ -493,7 +554,7 @@ func (m *machine) atoi(s *Term) value {
 		if m.branch(mkPrefixOf(mkStr("+"), s)) {
 			d, _ = m.cutPrefix(s, mkStr("+"))
 		}
-		if !m.branchNeg(mkInRe(d, rePosInt64), mkInRe(d, rePosInt64Gt)) {
+		if !m.inInt64Range(d, false) {
 			return tuple{int64(0), errV()}
 		}
 		val = mkStrToInt(d)
@@ -583,7 +644,15 @@ func itoaTerm(i *Term) *Term {
 }
 
 func iItoa(m *machine, fr *frame, args []value) value {
-	return fromTerm(itoaTerm(toTerm(args[0])))
+	i := toTerm(args[0])
+	if i.Op != "ci" && !(i.rng && i.lo >= 0) {
+		// fork on the sign so that the result is a plain concatenation
+		if m.branch(mkCmp("<", i, mkInt(0))) {
+			return fromTerm(mkConcat(mkStr("-"), mkStrFromInt(mkNeg(i))))
+		}
+		return fromTerm(mkStrFromInt(i))
+	}
+	return fromTerm(itoaTerm(i))
 }
 
 // ---------- os ----------
